@@ -53,7 +53,7 @@ def branch_tables(rep, repo, lg, rid_prefix='C02'):
     rows, _ = simtab.kind_prefixes(repo)
     weights, *_ = simtab.wave_operand_bits(repo)
     _, init = simops.simops_init(repo)
-    sites = simops.op_sites(init)
+    sites = simops.op_sites(init, tolerant=True)
     reach = c01.reachable_rows(repo, weights, rows, sites)
     mod, cp, chains, tv = mv_chains(repo)
     tables = {}
